@@ -38,6 +38,10 @@ struct telem {
     uint64_t pad;
     struct cstl_rbtree_node rn;
     uint64_t tail;
+    /* a second set of node members at other offsets: a tree may be declared over either, swap exchanges offsets too */
+    struct cstl_bintree_node bn2;
+    uint64_t pad2;
+    struct cstl_rbtree_node rn2;
 };
 #define MAGIC 0x7ee7ee7ee7ee7ee7ull
 
@@ -57,14 +61,21 @@ static int walk_epoch;
 
 static int is_rb(int t) { return t >= 2; }
 static struct cstl_bintree *BT(int t) { return is_rb(t) ? &rb[t - 2].t : &bt[t]; }
-static size_t node_off(int t) { return is_rb(t) ? offsetof(struct telem, rn.n) : offsetof(struct telem, bn); }
+static int tkind[NT];          /* which node member tree t is currently declared over (moves with swap) */
+static size_t rbmember_off(int t) { return tkind[t] ? offsetof(struct telem, rn2) : offsetof(struct telem, rn); }
+static size_t node_off(int t)
+{
+    if (is_rb(t)) return rbmember_off(t) + offsetof(struct cstl_rbtree_node, n);
+    return tkind[t] ? offsetof(struct telem, bn2) : offsetof(struct telem, bn);
+}
+static cstl_rbtree_color_t colour_of(int t, const struct telem *e) { return ((const struct cstl_rbtree_node *)((const char *)e + rbmember_off(t)))->c; }
 static struct telem *elem_of(int t, const struct cstl_bintree_node *n)
 {
     return (struct telem *)((char *)n - node_off(t));
 }
 static struct cstl_bintree_node *node_of(int t, struct telem *e)
 {
-    return is_rb(t) ? &e->rn.n : &e->bn;
+    return (struct cstl_bintree_node *)((char *)e + node_off(t));
 }
 
 static const char *prop_of(int t)
@@ -193,12 +204,12 @@ static int audit_node(int t, const struct cstl_bintree_node *n, const struct cst
         if (depth + 1 < a_mindepth_leaf) a_mindepth_leaf = depth + 1;
     }
     if (!is_rb(t)) return 0;
-    black = e->rn.c == CSTL_RBTREE_COLOR_B;
-    if (e->rn.c != CSTL_RBTREE_COLOR_B && e->rn.c != CSTL_RBTREE_COLOR_R)
+    black = colour_of(t, e) == CSTL_RBTREE_COLOR_B;
+    if (colour_of(t, e) != CSTL_RBTREE_COLOR_B && colour_of(t, e) != CSTL_RBTREE_COLOR_R)
         VIOLP("C02", "colour_value", "tree %d: element %d has an invalid colour", t, e->id);
     if (!black) {
-        if ((n->l && elem_of(t, n->l)->rn.c == CSTL_RBTREE_COLOR_R)
-            || (n->r && elem_of(t, n->r)->rn.c == CSTL_RBTREE_COLOR_R))
+        if ((n->l && colour_of(t, elem_of(t, n->l)) == CSTL_RBTREE_COLOR_R)
+            || (n->r && colour_of(t, elem_of(t, n->r)) == CSTL_RBTREE_COLOR_R))
             VIOLP("C02", "red_red", "tree %d: red element %d has a red child", t, e->id);
     }
     if (lh != rh) VIOLP("C02", "black_height", "tree %d: black heights differ below element %d (%d vs %d)", t, e->id, lh, rh);
@@ -222,7 +233,7 @@ static void audit_tree(int t)
     for (i = 0; i < m->n; i++)
         if (m->e[i]->mark != walk_epoch) VIOL(t, "lost_element", "tree %d: element %d is held but not reachable", t, m->e[i]->id);
     if (is_rb(t)) {
-        if (b->root && elem_of(t, b->root)->rn.c != CSTL_RBTREE_COLOR_B)
+        if (b->root && colour_of(t, elem_of(t, b->root)) != CSTL_RBTREE_COLOR_B)
             VIOLP("C02", "root_black", "tree %d: the root is red", t);
         TRY(cstl_rbtree_height(&rb[t - 2], &hmin, &hmax));
         if (g_aborted) VIOLP("C02", "abort", "height aborted");
@@ -241,7 +252,7 @@ static void audit_tree(int t)
         nref = 0; ref_walk(t, b->root, 0, 0);
         for (i = 0; i < nref; i++) {
             sh = fnv1a(sh, (uint64_t)reflog[i].e->key * 4 + (uint64_t)reflog[i].ord);
-            if (is_rb(t)) sh = fnv1a(sh, (uint64_t)reflog[i].e->rn.c);
+            if (is_rb(t)) sh = fnv1a(sh, (uint64_t)colour_of(t, reflog[i].e));
         }
     }
     state_note(sh);
@@ -323,10 +334,11 @@ static void t_exec(const plan_t *p)
     clear_frees = (int)p->cfg[CF_CLEARFREES];
     next_id = 0; maxreach = 0;
     memset(bt, (int)(unsigned char)p->cfg[CF_JUNK], sizeof bt); memset(rb, (int)(unsigned char)p->cfg[CF_JUNK], sizeof rb);
-    cstl_bintree_init(&bt[0], cmp_key, NULL, offsetof(struct telem, bn));
-    cstl_bintree_init(&bt[1], cmp_key, NULL, offsetof(struct telem, bn));
-    cstl_rbtree_init(&rb[0], cmp_key, NULL, offsetof(struct telem, rn));
-    cstl_rbtree_init(&rb[1], cmp_key, NULL, offsetof(struct telem, rn));
+    for (i = 0; i < NT; i++) tkind[i] = (int)(p->cfg[CF_STREAM] >> (12 + i) & 1);
+    cstl_bintree_init(&bt[0], cmp_key, NULL, node_off(0));
+    cstl_bintree_init(&bt[1], cmp_key, NULL, node_off(1));
+    cstl_rbtree_init(&rb[0], cmp_key, NULL, rbmember_off(2));
+    cstl_rbtree_init(&rb[1], cmp_key, NULL, rbmember_off(3));
     probe.magic = MAGIC; probe.tail = ~MAGIC; probe.id = -1; probe.tree = -1;
     reentrant = 0;
     if (p->cfg[CF_STREAM] >> 8 & 1) {
@@ -484,6 +496,8 @@ static void t_exec(const plan_t *p)
                 memcpy(mu->e, tmp, sizeof(m->e[0]) * (size_t)n); mu->n = n; mu->since_clear = sc;
                 for (j = 0; j < m->n; j++) m->e[j]->tree = t;
                 for (j = 0; j < mu->n; j++) mu->e[j]->tree = u;
+                j = tkind[t]; tkind[t] = tkind[u]; tkind[u] = j;
+                if (tkind[t] != tkind[u]) PROBE("swap_different_offsets");
             }
             PROBE("swap");
             EVT("swap", t, u, 0);
@@ -541,7 +555,7 @@ static void t_gen(prng_t *r, int mode, plan_t *p)
     p->cfg[CF_MAXN] = longrun ? 100 + prng_below(r, 400) : small ? 2 + prng_below(r, 6) : 6 + prng_below(r, 58);
     p->cfg[CF_CLEARFREES] = mode == 15 ? 1 : prng_below(r, 2);
     stream = (int)prng_below(r, 6);      /* 0,1: random; 2 ascending; 3 descending; 4 zig-zag; 5 few values */
-    p->cfg[CF_STREAM] = (uint64_t)stream | (prng_chance(r, 1, 6) ? 256 : 0);
+    p->cfg[CF_STREAM] = (uint64_t)stream | (prng_chance(r, 1, 6) ? 256 : 0) | (prng_chance(r, 1, 3) ? prng_below(r, 16) << 12 : 0);
     if (stream == 5) p->cfg[CF_KEYS] = 1 + prng_below(r, 3);
     nops = longrun ? 300 + (int)prng_below(r, 1700) : small ? 2 + (int)prng_below(r, 7) : 10 + (int)prng_below(r, 70);
 
